@@ -571,7 +571,58 @@ def w_pagination(failure, tier):
     return dict(found=False, note='pagination: %d sort plans x 4 page sizes over 14 documents in 3 segments: every walk equals the single big request' % len(plans))
 
 
+# ---------------------------------------------------------------- U13 explain flag
+def w_explain(failure, tier):
+    """the same request with explain off and on must return the same hits, order and scores, and every explanation's
+    final_score must equal its hit's score"""
+    docs = []
+    for i in range(12):
+        docs.append({"_id": "d%02d" % i, "body": "slow boring text" if i % 4 == 3 else "rust search engine " + "rust " * (i % 3), "rating": float(1 + (i * 5) % 7)})
+    add = {"numeric_fields": [{"name": "rating", "i64": False, "fast": True, "stored": True}]}
+    queries = [
+        "rust",
+        {"type": "function_score", "query": {"type": "term", "field": "body", "value": "rust", "boost": 0.0},
+         "functions": [{"type": "field_value_factor", "field": "rating", "factor": 1.0}]},
+        {"type": "function_score", "query": {"type": "term", "field": "body", "value": "rust"},
+         "functions": [{"type": "weight", "weight": 2.0}], "boost_mode": "multiply"},
+        {"type": "function_score", "query": {"type": "term", "field": "body", "value": "rust", "boost": 0.0},
+         "functions": [{"type": "weight", "weight": 3.0}], "boost_mode": "min"},
+        {"type": "bool", "should": [{"type": "term", "field": "body", "value": "rust"}, {"type": "term", "field": "body", "value": "engine"}]},
+    ]
+    reqs = []
+    for q in queries:
+        for ex in ("bm25", "wand"):
+            for explain in (False, True):
+                reqs.append(dict(REQ_BASE, query=q, limit=50, execution=ex, explain=explain))
+    out, err = drive_search({"schema": None, "schema_add": add, "batches": [docs[:6], docs[6:]], "requests": reqs})
+    if out is None:
+        return dict(found=False, note='search driver failed: %s' % err)
+    n = 0
+    for i in range(0, len(reqs), 2):
+        a, b = out[i], out[i + 1]
+        if 'ok' not in a or 'ok' not in b:
+            if ('ok' in a) != ('ok' in b):
+                return dict(found=True, cmd='%s search' % BIN, input=_json.dumps(reqs[i]['query']), observed='explain off: %s / explain on: %s' % (str(a)[:150], str(b)[:150]), expected='same outcome')
+            continue
+        ha = [(h['doc_id'], h['score']) for h in a['ok']['hits']]
+        hb = [(h['doc_id'], h['score']) for h in b['ok']['hits']]
+        n += 1
+        if ha != hb:
+            return dict(found=True, cmd='%s search <<< hex(json)' % BIN,
+                        input='12 documents in 2 segments; query %s, execution %s, run with explain false and true' % (_json.dumps(reqs[i]['query']), reqs[i]['execution']),
+                        observed='explain off: %s ; explain on: %s' % (ha[:5], hb[:5]), expected='identical hits, order and scores')
+        for h in b['ok']['hits']:
+            ex = h.get('explanation')
+            if ex is None or ex.get('final_score') != h['score']:
+                return dict(found=True, cmd='%s search <<< hex(json)' % BIN, input='query %s with explain' % _json.dumps(reqs[i]['query']),
+                            observed='hit %s score %s explanation %s' % (h['doc_id'], h['score'], ex), expected='an explanation whose final_score equals the hit score')
+    return dict(found=False, note='explain flag: %d request pairs (explain off/on) agree in hits, order and scores; every final_score equals its hit score' % n)
+
+
 GENERATORS = {
+    ('U13', 'function_values_and_base'): w_explain,
+    ('U13', 'explain_fill'): w_explain,
+    ('U13', 'rescore_update'): w_explain,
     ('U14', 'fast_path_guard'): w_pagination,
     ('U7', 'page_cut'): w_pagination,
     ('U7', 'skip_search_segment'): w_pagination,
